@@ -1434,6 +1434,28 @@ def variants(tier: str) -> List[Dict[str, Any]]:
             pw = [i for i, (a, o) in enumerate(adversarial_actions()) if a in ("node-shutdown", "node-startup")]
             add(f"data_manipulation(rich obs, {'/'.join(keys)} = 0, flatten={flat}, adversarial)", c, 1, 30 if quick else 80, ex,
                 p_extra=0.6, script=(None, pw[0], None, None, None, pw[1]) if len(pw) > 1 else ())
+    # transition tours of spec/Lifecycle.tla: every agent operation at every reachable power x component state; the
+    # observation is recorded at the first visits of every abstract state (and at every reset)
+    import random as _random
+
+    from . import tour as _tour
+
+    for facet in ("svc", "app", "fs"):
+        g = _tour.graph(facet)
+        eps, st = _tour.tour(g, _random.Random(7), episode_len=300)
+        tcfg, idx = _tour.scenario(facet, flatten=(facet == "app"))
+        seen: Dict[Any, int] = {}
+        scripts, record_at, hooks = [], set(), {}
+        for ei, ep in enumerate(eps):
+            scripts.append([idx[a] for a in ep])
+            for si, (a, state) in enumerate(zip(ep, _tour.states_along(g, ep))):
+                seen[state] = seen.get(state, 0) + 1
+                if seen[state] <= (1 if quick else 3):
+                    record_at.add((ei, si + 1))
+                if a == "red-compromise":
+                    hooks[(ei, si + 1)] = facet
+        add(f"tour:{facet}(Lifecycle.tla, {st['edges']} edges, {len(seen)} states)", tcfg, len(eps), 0)
+        V[-1].update(scripts=scripts, record_at=record_at, hooks=hooks)
     add("uc7_config", scenarios.shipped("uc7_config.yaml"), 2, 30 if quick else 128)
     add("scenario_with_placeholders(episode schedule)", str(scenarios.PKG / "scenario_with_placeholders"), 5, 20 if quick else 60,
         constant=False, note="episode-scheduled directory: not a constant scenario; digests logged, constancy not demanded")
@@ -1522,8 +1544,15 @@ def run_variant(prop: str, v: Dict[str, Any], seed: int, stats: Dict[str, Any]) 
             digests.append(episode_event(space_digest(env.observation_space), space_digest(env.action_space)))
         record(obs, ep, 0, walkers)
         n = env.action_space.n
-        for st in range(1, v["steps"] + 1):
-            if st <= len(v.get("script") or []):
+        ep_script = (v.get("scripts") or [None] * (ep + 1))[ep]
+        for st in range(1, (len(ep_script) if ep_script is not None else v["steps"]) + 1):
+            if ep_script is not None:
+                a = ep_script[st - 1]
+                if (ep, st) in (v.get("hooks") or {}):
+                    from . import tour as _tour
+
+                    _tour.compromise(env.game, v["hooks"][(ep, st)])
+            elif st <= len(v.get("script") or []):
                 a = v["script"][st - 1]
                 a = 0 if a is None else a
             else:
@@ -1534,7 +1563,14 @@ def run_variant(prop: str, v: Dict[str, Any], seed: int, stats: Dict[str, Any]) 
             except Exception as exc:  # noqa - the observation could not even be produced
                 raised("step", exc, ep, st)
                 break  # the environment is reset (next episode) and the run continues
-            record(obs, ep, st, walkers)
+            if v.get("record_at") is None or (ep, st) in v["record_at"]:
+                record(obs, ep, st, walkers)
+            else:
+                # the walkers carry memory (e.g. the value a folder showed at its last scan): they see every step,
+                # only the traces of this step are not kept
+                for w in walkers:
+                    for _ in w.walk():
+                        pass
         for w in walkers:
             for k, n_ in w.notes.items():
                 stats.setdefault("notes", {})
